@@ -54,3 +54,11 @@ package main
 //@   assert_call[C19] strings.SplitN : option_split_at_the_first_equals_sign: arg1 == "=" && arg2 == 2
 //@   assert_call[C19] boolVal : of_the_split_option: arg0 == lastresult("strings.SplitN")
 //@   ensures[C19] module_root_and_source_relative_are_exclusive: result1 == nil ==> !(result0.sourceRelative && result0.moduleRoot != "")
+
+// doCodeGen: options are parsed first (an option error generates nothing), then stubs
+// are generated for every file of the request, in order, with the parsed options.
+//@ func doCodeGen
+//@   assert_call[C19] parseArgs : of_the_requests_parameter: arg0 == req.Args
+//@   ensures[C19] option_error_generates_nothing: lastresult(parseArgs, 1) != nil ==> result == lastresult(parseArgs, 1) && !called(generateChanStubs)
+//@   assert_call[C19] generateChanStubs : each_file_with_the_parsed_options: arg1 == &names && arg2 == resp && arg3 == lastresult(parseArgs, 0) && lastresult(parseArgs, 1) == nil
+//@   modifies everything
